@@ -84,6 +84,8 @@ class Island(EvolutionaryOptimizer):
         """
         if self.generational_age == 0:
             self.evaluate_population()
+        else:
+            self._evaluate_population_if_needed()
         best = self.population[0]
         for indv in self.population:
             if indv.fitness < best.fitness or np.isnan(best.fitness).any():
